@@ -1,5 +1,5 @@
 """C08 -- only vars and explicitly passed pointers can be mutated."""
-from rules import hirq, mirq, flagstate, visit
+from rules import hirq, mirq, flagstate, visit, origins
 from rules.core import walk, norm_path, AnchorMissing
 
 LEVEL = "other"
@@ -140,6 +140,21 @@ def r3_checked_mutation(run, F):
     ok = ok and isadd == "((reference.address_depth > 0) && needs_outer_mutability(..))"
     run.ob("R3-ADDRESS-CHECKED", "Expression::Deref", ok, F.where(e, darm[0]),
            "taking the address of a variable (&x) requires it to be mutable unless reached through a pointer: is_addressed = %s" % isadd)
+    # the variable whose mutability bit is consulted is the BASE of the reference (members are declared mutable one and all:
+    # it is the binding -- var, parameter, constant -- that decides)
+    for label, body_, armnode in (("Statement::Assignment", st, arm[0]), ("Expression::Deref", e, darm[0])):
+        calls = [c for c in hirq.calls(armnode["body"]) if hirq.callee(c) == MU + "Analyzer::use_variable"]
+        okb = False
+        det = "no use_variable call"
+        if len(calls) == 1:
+            o = origins.origins(body_["hir"], calls[0]["a"][0], body_.get("params", ()))
+            from_base = ("field", "base") in o
+            from_steps = ("field", "steps") in o or ("call", "alpha::common::ReferenceStep::get_member") in o
+            okb = from_base and not from_steps
+            det = "derives from reference.base: %s, from the steps/members: %s" % (from_base, from_steps)
+        run.ob("R3-BASE-DECIDES", label, okb, F.where(body_, armnode),
+               "use_variable must be asked about the base of the reference (%s); asking about a member step loses E530 for "
+               "`param.member = ..` and `CONST.member = ..`" % det)
     uv = F.body(MU + "Analyzer::use_variable")
     ifs = [n for n in walk(uv["hir"]) if n.get("k") == "If" and "else" in n and hirq.summarize_bool(n["cond"]) == "(is_mutated && !is_mutable)"]
     ok = False
